@@ -239,6 +239,7 @@ package scheduler
 //@   loop 1 invariant [C19,C03,C06] A2-ongoing-bounded: 0 <= ongoing && ongoing <= s.concurrency
 //@   loop 1 invariant [C19,C05] A3-counters-match-channel-events: ongoing == $OUT && pending == nEnq - nRes && nRes <= nDisp && 0 <= nRes && 0 <= nEnq
 //@   loop 1 invariant [C19] A4-waiting-bounded: waiting <= nEnqDeps && nEnqDeps <= nEnq && listlen(ready) >= 0
+//@   loop 1 invariant [C05,C06] K2-the-loop-does-not-wait-once-nothing-is-pending-and-no-enqueue-can-come: !(pending == 0 && closedSeen)
 //@   loop 1 invariant [C05] K1-enqueue-arm: (enqueuec == nil) == closedSeen && implies(enqueuec != nil, enqueuec == s.enqueuec)
 //@   loop 1 invariant [C07] E1-failfast-no-error-yet: implies(!s.continueOnError, s.err == nil)
 //@   loop 1 invariant L1-ready-entries-are-jobs: $L1
